@@ -62,8 +62,8 @@ class ApplyAutomorphism:
     """L1: for every phased Pauli P, every (r,S) with S symplectic and every generator G in {X_i,Z_i,iI}:
        apply(P.G) = apply(P).apply(G);  apply(I)=I; apply(iI)=iI; identity tableau acts trivially; outputs are bits;
        the internal assert cannot fire."""
-    prop = PROP; name = 'apply_clifford_on_pauli'; modules = [cl]
-    targets = ['numqi.sim.clifford:apply_clifford_on_pauli']
+    prop = PROP; name = 'apply_clifford_on_pauli'; modules = [cl, gp]
+    targets = ['numqi.sim.clifford:apply_clifford_on_pauli', 'numqi.gate._pauli:PauliOperator.__matmul__']
 
     def shape_label(self, n): return f'n={n}'
 
@@ -81,8 +81,12 @@ class ApplyAutomorphism:
         out = dict(aP=cl.apply_clifford_on_pauli(P, r, Sm), per_gen=[])
         for G in SP.generators(n):
             Gs = SymArray(G.astype(object), np.uint8) if sym else G
-            PG = mk(SP.pauli_mul(S.bits(P), S.bits(G)))
-            out['per_gen'].append((cl.apply_clifford_on_pauli(PG, r, Sm), cl.apply_clifford_on_pauli(Gs, r, Sm)))
+            # the group product is formed by the REAL PauliOperator.__matmul__ (contract: == spec law, proved as
+            # C08.PauliOperator.__matmul__.eq_spec_group_law_incl_phase, re-run in this check): the solver handles the
+            # code's own arithmetic form of the phase far better than the xor form of the spec
+            PG = (gp.PauliOperator(P) @ gp.PauliOperator(Gs)).F2
+            aPG = cl.apply_clifford_on_pauli(PG, r, Sm); aG = cl.apply_clifford_on_pauli(Gs, r, Sm)
+            out['per_gen'].append((aPG, aG, (gp.PauliOperator(out['aP']) @ gp.PauliOperator(aG)).F2))
         e = np.zeros(2 * n + 2, dtype=np.uint8)
         out['aI'] = cl.apply_clifford_on_pauli(SymArray(e.astype(object), np.uint8) if sym else e, r, Sm)
         zr = np.zeros(2 * n, dtype=np.uint8); ey = np.eye(2 * n, dtype=np.uint8)
@@ -97,9 +101,10 @@ class ApplyAutomorphism:
         cl_ = [('outputs_are_bits', S.all_bits(S.elems(r['aP']))), ('identity_fixed', S.vec_eq(S.bits(r['aI']), SP.identity(n))),
                ('identity_tableau_acts_trivially', S.vec_eq(S.bits(r['id']), S.bits(I['P']))),
                ('xz_part_is_S_times_xz', S.vec_eq(aP[2:], [S.xor_all([S.bit(row[j]) & S.bits(I['P'])[2 + j] for j in range(2 * n)]) for row in S.rows(I['S'])]))]
-        for gi, (aPG, aG) in enumerate(r['per_gen']):
+        for gi, (aPG, aG, prod) in enumerate(r['per_gen']):
             nm = f'X{gi}' if gi < n else (f'Z{gi - n}' if gi < 2 * n else 'iI')
-            cl_.append((f'automorphism_on_generator_{nm}', S.vec_eq(S.bits(aPG), SP.pauli_mul(aP, S.bits(aG)))))
+            cl_.append((f'automorphism_on_generator_{nm}', S.vec_eq(S.bits(aPG), S.bits(prod)),
+                        dict(depends=[f'C08.PauliOperator.__matmul__.eq_spec_group_law_incl_phase[n={n}]'])))
             if gi == 2 * n:
                 cl_.append(('centre_fixed', S.vec_eq(S.bits(aG), [S.ZERO, S.ONE] + [S.ZERO] * (2 * n))))
         return cl_
@@ -348,6 +353,12 @@ def _norm_shape(shape):
 
 def job_contract(tier, rng, cname, shape, part=(0, 1)):
     return verify_contract(CONTRACTS[cname], _norm_shape(shape), tier, rng, part=tuple(part), crosscheck=3)
+
+
+def job_c08_matmul(tier, rng, n):
+    """the contract of the real PauliOperator.__matmul__ (== spec group law) that L1 is stated with; owned by C08, re-proved here"""
+    from . import c08
+    return verify_contract(c08.CONTRACTS['PauliOperator.__matmul__'], n, tier, rng, crosscheck=2)
 
 
 # ----------------------------------------------------------------------------- trace obligations (init / exit / order / cache)
@@ -736,6 +747,7 @@ def jobs(tier):
     J = []
     for n in [1, 2, 3]:
         J.append(('job_contract', dict(cname='apply_clifford_on_pauli', shape=n)))
+        J.append(('job_c08_matmul', dict(n=n)))
     for m in sorted({2 * n for n in sh['n_full'] + sh['n_embedded']}):
         J.append(('job_lemma_symplectic_product', dict(m=m)))
     for n in sh['n_full']:
@@ -760,6 +772,7 @@ def jobs(tier):
     if tier == 'thorough':
         J.append(('job_clifford_group', dict(n=2)))
         J.append(('job_histories', dict(n=2, length=4)))
+    J.sort(key=lambda j: 0 if (j[1].get('cname') == 'apply_clifford_on_pauli' and j[1].get('shape') == 3) else 1)
     return J
 
 
